@@ -829,7 +829,16 @@ class Interp(object):
                 return list(c.items)
         if hasattr(v, 'star_items'):
             return v.star_items(self)
-        raise Undecided('star-args of %r' % (v,))
+        try:
+            items = self.iter_items(v, ast.Pass(lineno=0), Frame(None, None, '<star>'))
+        except Undecided:
+            raise Undecided('star-args of %r' % (v,))
+        out = []
+        for g, x in items:
+            if g is not True and not self.ctx.decide(g, 'in-set'):
+                continue
+            out.append(x)
+        return out
 
     def ex_Attribute(self, e, fr):
         obj = self.eval(e.value, fr)
